@@ -16,7 +16,7 @@ def gen(seed, tier):
     payloads = []
     scripts = [[["wait-running"]], [["wait-running"]]]
     race = rng.random() < (0.2 if tier == "quick" else 0.3)
-    window = tier == "thorough" and rng.random() < 0.15
+    window = rng.random() < (0.15 if tier == "thorough" else 0.08)
     n = rng.randint(1, 9)
     for i in range(n):
         fl = rng.choice(FL)
@@ -49,6 +49,14 @@ def gen(seed, tier):
             op = "adopt" if via == "adopt-payload" else "create-service"
             payloads.append({"id": "par%d" % i, "flavour": rng.choice(FL), "via": rng.choice(["queued", "service-pre"]), "steps": [["sleep", rng.choice([0.0, 0.0, ad, 2 * ad])], [op, pid], ["block"]], "helper": True})
         payloads.append(spec)
+    if rng.random() < 0.25:
+        # nested contexts: a coroutine payload executes (blocking) a payload of the other coroutine flavour,
+        # which in turn adopts a payload - the adoption must not wait for the blocked caller's loop
+        cfl = rng.choice(["asyncio", "trio"])
+        ofl = "trio" if cfl == "asyncio" else "asyncio"
+        payloads.append({"id": "nchild", "flavour": rng.choice([cfl, cfl, "threading"]), "via": "adopt", "steps": [["block"]], "args": rng.choice(ARGS), "kwargs": rng.choice(KWARGS)})
+        payloads.append({"id": "nexec", "flavour": ofl, "via": "execute", "steps": [["adopt", "nchild"], ["return", "none"]], "helper": True})
+        payloads.append({"id": "ncaller", "flavour": cfl, "via": "queued", "steps": [["sleep", rng.choice([0.0, ad])], ["execute", "nexec"], ["block"]], "helper": True})
     if rng.random() < 0.3:
         scripts[1] += [["sleep", ad], ["gc"]]
     settle = 4 * ad + 3 * ad + 1.5
